@@ -404,6 +404,11 @@ void PropertyHDF5::values(const std::vector<Variant> &values) {
     if (dt != data_type_from_h5(dset.dataType())) {
         throw std::invalid_argument("Inconsistent DataTypes!");
     }
+    for (const Variant &v : values) {
+        if (v.type() != dt) {
+            throw std::invalid_argument("Inconsistent DataTypes!");
+        }
+    }
     dset.setExtent(NDSize{values.size()});
 
     switch(values[0].type()) {
